@@ -48,6 +48,9 @@ pub struct RunCtx {
     pub gate: Mutex<Option<Arc<dyn Fn(&str, u32, Aid) + Send + Sync>>>,
     /// whether callbacks read get_state() and log it
     pub read_state_in_callbacks: bool,
+    /// engine F only: (middleware id, hook r|e|d, action) -> action the hook dispatches through the
+    /// dispatcher it was handed (`mwd` scenario lines)
+    pub mw_dispatch: Mutex<HashMap<(u32, char, Aid), Aid>>,
 }
 
 impl RunCtx {
@@ -58,6 +61,7 @@ impl RunCtx {
             store: Mutex::new(None),
             gate: Mutex::new(None),
             read_state_in_callbacks: false,
+            mw_dispatch: Mutex::new(HashMap::new()),
         })
     }
 
@@ -204,6 +208,16 @@ impl SMiddleware {
         }
     }
 
+    /// `mwd`: dispatch from inside the hook, in the reducer context, through the handed dispatcher
+    fn nested_dispatch(&self, hook: char, action: &Aid, d: &Arc<dyn Dispatcher<Aid>>) {
+        let b = self.ctx.mw_dispatch.lock().unwrap().get(&(self.sc.id, hook, *action)).copied();
+        if let Some(b) = b {
+            self.ctx.log(format!("INV d.D.{}", b));
+            let r = d.dispatch(b);
+            self.ctx.log(format!("RET d.D.{} {}", b, if r.is_ok() { "ok" } else { "err" }));
+        }
+    }
+
     fn read_state(&self) {
         if self.ctx.read_state_in_callbacks {
             if let Some(st) = self.ctx.store() {
@@ -223,11 +237,12 @@ impl Middleware<State, Aid> for SMiddleware {
         &self,
         action: &Aid,
         state: &State,
-        _d: Arc<dyn Dispatcher<Aid>>,
+        d: Arc<dyn Dispatcher<Aid>>,
     ) -> Result<MiddlewareOp, StoreError> {
         self.ctx.gate("br", self.sc.id, *action);
         let v = self.sc.br.get(action).copied().unwrap_or(Verdict::Continue);
         self.ctx.log(format!("BR {} {} {} {}", self.sc.id, action, state_text(state), v.text()));
+        self.nested_dispatch('r', action, &d);
         CUR_HOOK.with(|c| c.set("r"));
         self.result(v)
     }
@@ -237,10 +252,11 @@ impl Middleware<State, Aid> for SMiddleware {
         action: &Aid,
         state: &State,
         effects: &mut Vec<Effect<Aid>>,
-        _d: Arc<dyn Dispatcher<Aid>>,
+        d: Arc<dyn Dispatcher<Aid>>,
     ) -> Result<MiddlewareOp, StoreError> {
         self.ctx.gate("be", self.sc.id, *action);
         self.read_state();
+        self.nested_dispatch('e', action, &d);
         let (v, rm) = self.sc.be.get(action).cloned().unwrap_or((Verdict::Continue, vec![]));
         let mut mirror = self.ctx.mirror.lock().unwrap();
         let ids = mirror.entry(*action).or_default();
@@ -282,10 +298,11 @@ impl Middleware<State, Aid> for SMiddleware {
         &self,
         action: &Aid,
         state: &State,
-        _d: Arc<dyn Dispatcher<Aid>>,
+        d: Arc<dyn Dispatcher<Aid>>,
     ) -> Result<MiddlewareOp, StoreError> {
         self.ctx.gate("bd", self.sc.id, *action);
         self.read_state();
+        self.nested_dispatch('d', action, &d);
         let v = self.sc.bd.get(action).copied().unwrap_or(Verdict::Continue);
         self.ctx.log(format!("BD {} {} {} {}", self.sc.id, action, state_text(state), v.text()));
         CUR_HOOK.with(|c| c.set("d"));
